@@ -144,6 +144,9 @@ func TestC05(t *testing.T) {
 		if c.Plug {
 			st.AddFeat("reader-parked", 1)
 		}
+		if c.Overflow > 0 {
+			st.AddFeat("error-pending-after-overflow", 1)
+		}
 		if nt {
 			st.NonTrivial(c.String(), c.String())
 		}
